@@ -26,15 +26,20 @@ import pegdump
 IMPORTS = ("From TxV Require Import Core.Base Core.Show Model.PegSyntax Model.Peg Model.PegShow Model.PegEquiv "
            "Gen.SrcLangPeg Gen.SrcTxPeg.\nOpen Scope string_scope.")
 FUEL = 600
+# the regular expressions the checker assumes never to match the empty string (mirror of
+# Model/PegEquiv.v textx_nonempty_patterns; compared with the Coq value on every run and checked on every text)
+NONEMPTY_PATTERNS = [r"\w+"]
 # the oracle as a per-oracle-id association list (same function as Peg.orc_of on the flat table, faster to evaluate)
 DEFS = """Definition orc2 (t : list (list (nat * nat))) (o p : nat) : option nat :=
   (fix go (l : list (nat * nat)) : option nat :=
      match l with [] => None | (p', v) :: l' => if Nat.eqb p p' then Some v else go l' end) (nth o t []).
 Definition c24_diffs (only_unaccepted : bool) : string :=
   let d := diff_labels lang_labels tx_labels
-             (peg_equiv_diffs (seeds_of lang_labels tx_labels textx_seeds) lang_grammar tx_grammar) in
+             (peg_equiv_diffs (ne_of lang_oracles textx_nonempty_patterns)
+                (seeds_of lang_labels tx_labels textx_seeds) lang_grammar tx_grammar) in
   let d := if only_unaccepted then filter (fun p => negb (existsb (lp_eqb p) textx_accepted_diffs)) d else d in
   sjoin ";" (map (fun p => String.append (show_str (fst p)) (String.append "~" (show_str (snd p)))) d).
+Definition c24_ne : string := sjoin ";" (map show_str textx_nonempty_patterns).
 Definition c24_case (t : list (list (nat * nat))) (inp : list N) : string :=
   String.append (show_outcome lang_grammar (run lang_grammar lang_config (orc2 t) false %d inp))
     (String.append " | " (show_outcome tx_grammar (run tx_grammar tx_config (orc2 t) false %d inp))).""" % (FUEL, FUEL)
@@ -347,12 +352,68 @@ def tx_accepts(o):
 def run_texts(texts, tables=False):
     chunks = [list(range(i, len(texts), core.NPROC)) for i in range(core.NPROC)]
     chunks = [c for c in chunks if c]
-    outs = core.run_impl_parallel("c24", [{"mode": "cases", "texts": [texts[i] for i in ch], "tables": tables} for ch in chunks])
+    outs = core.run_impl_parallel("c24", [{"mode": "cases", "texts": [texts[i] for i in ch], "tables": tables,
+                                           "nonempty": NONEMPTY_PATTERNS} for ch in chunks])
     res = [None] * len(texts)
     for ch, o in zip(chunks, outs):
         for i, x in zip(ch, o):
             res[i] = x
     return res
+
+
+# ---------------------------------------------------------------- targeted search for a new differing pair
+FOCUS = [
+    (("rrel", "parent", "navigation", "dots", "brackets", "zeroormore", "path"), [
+        "A : x = [ B : ID | ^ a . b * ] ;", "A : x = [ B : ID | parent ( T ) . a ] ;", "A : x = [ B : ID | ( a , b ) * . ~ c ] ;",
+        "A : x = [ B : ID | +m: .. a , b ] ;", "A : x = [ B | ID | a . ( b ) ] ;"],
+     ["^", ".", "..", ",", "*", "~", "(", ")", "parent", "a", "+m:", "|", "T", "'n'"]),
+    (("import", "reference", "grammar_to_import", "language", "alias"), [
+        "import a.b reference some-lang as o A : 'a' ;", "reference x A : 'a' ;", "import base import .rel A : 'a' ;"],
+     ["import", "reference", "as", "a.b", "a-b", "o", ".", "-", "x"]),
+    (("param",), ["A [ skipws , ws = ' ' ] : 'a' ;", "A [ noskipws ] : 'a' ;", "A [ split = 'x' , foo = \"y\" ] : 'a' ;"],
+     ["[", "]", ",", "=", "ws", "' '", "x"]),
+    (("repeat", "modifier", "operator"), [
+        "A : 'a' * [ ',' eolterm ] x += B [ eolterm ] - ;", "A : 'a' # [ ',' ] B + C ? - ;", "A : x *= 'a' [ '/' /r/ ] ;"],
+     ["*", "+", "?", "#", "-", "[", "]", "eolterm", "','", "/r/"]),
+    (("assignment", "attribute"), ["A : x = ID y *= 'a' z ?= /r/ w += [ B ] ;", "A : x = a.b y += B [ ',' ] ;"],
+     ["=", "*=", "+=", "?=", "x", "ID", "'a'", "[", "]"]),
+    (("obj_ref", "objref", "class_name", "classname", "qualified", "rule_ref", "ruleref", "builtin", "reference"), [
+        "A : x = [ ns.B : ID ] y = [ B | ID | ^ a ] ;", "A : x = [ B ] y = a.b.C z = ID.x INTx ;", "A : x = [ a.b.c : q ] ;"],
+     ["[", "]", ":", "|", "B", "ID", "a.b", ".", "INT", "x", "1x"]),
+    (("predicate", "expression", "bracketed", "choice", "sequence", "rule_body", "rulebody", "textx_rule", "textxrule"), [
+        "A : ! 'a' & B ( 'c' | D 'e' ) + | F - ;", "A : ( ( 'a' ) ) | B ; C : 'd' ;", "A : 'a' | 'b' | 'c' d = E ;"],
+     ["!", "&", "(", ")", "|", ";", ":", "'a'", "B", "-"]),
+    (("match", "string", "re_", "rematch"), ["A : 'a' \"b\" /c\\/d/ 'it\\'s' ;", "A : /x/ // c\n 'y' /* z */ ;"],
+     ["'a'", "\"b\"", "/r/", "'", "\"", "/", "\\", "//", "/*"]),
+    (("comment",), ["A : 'a' ; // c\n B : 'b' ; /* d */", "/* x */ A : 'a' // y\n ;"], ["//", "/*", "*/", "\n", "/"]),
+]
+
+
+def targeted_texts(unaccepted, limit=1600):
+    """texts exercising the rules named in the unaccepted differing pairs: for each matching family, every
+    single-token deletion / insertion / replacement (family tokens + general tokens) of a few base grammars"""
+    labels = [x.lower() for pair in unaccepted.split(";") if pair for x in pair.split("~")]
+    fams = [f for f in FOCUS if any(k in lab or k.replace("_", "") in lab for k in f[0] for lab in labels)] or FOCUS
+    out, seen = [], set()
+    per = max(1, limit // max(1, sum(len(f[1]) for f in fams)))
+    for keys, bases, toks in fams:
+        alphabet = toks + [t for t in MUT_TOKENS if t not in toks][:12]
+        for b in bases:
+            tl = b.split(" ")
+            mine = [b]
+            for i in range(len(tl) + 1):
+                if i < len(tl):
+                    mine.append(" ".join(tl[:i] + tl[i + 1:]))
+                for t in alphabet:
+                    mine.append(" ".join(tl[:i] + [t] + tl[i:]))
+                    if i < len(tl):
+                        mine.append(" ".join(tl[:i] + [t] + tl[i + 1:]))
+            step = max(1, len(mine) // per)
+            for t in mine[::step] if len(mine) > per else mine:
+                if t not in seen:
+                    seen.add(t)
+                    out.append(t)
+    return out[:limit]
 
 
 def run(chk):
@@ -363,30 +424,77 @@ def run(chk):
     n = 1800 if chk.thorough else 70
     n_model = 360 if chk.thorough else 24
     cases = gen_cases(chk, n)
-    texts = [c["text"] for c in cases]
-    t0 = time.time()
-    outs = run_texts(texts)
-    chk.notes.append("impl %d texts %.1fs" % (len(texts), time.time() - t0))
     failures, disagreements = [], []
     suspects, timeouts = [], []
-    for c, o in zip(cases, outs):
-        c["impl"] = o
-        if o.get("timeout"):
-            timeouts.append(c["text"])
-            chk.stat("skipped: a real parser needed more than 20 s")
+
+    def observe(batch):
+        t0 = time.time()
+        outs = run_texts([c["text"] for c in batch])
+        chk.notes.append("impl %d texts %.1fs" % (len(batch), time.time() - t0))
+        for c, o in zip(batch, outs):
+            c["impl"] = o
+            if o.get("timeout"):
+                timeouts.append(c["text"])
+                chk.stat("skipped: a real parser needed more than 20 s")
+                continue
+            acc_l, acc_t = compiler_accepts(o), tx_accepts(o)
+            chk.count(c["text"], nontrivial=acc_l or acc_t or len(c["text"]) > 8)
+            chk.stat("%s compiler=%s textx.tx=%s" % (c["kind"].split(":")[0], "accept" if acc_l else "reject", "accept" if acc_t else "reject"))
+            # glue: the API-level classification must be the Arpeggio-level one
+            if (o["lang"] == "P") != acc_l or (o["tx"] == "P") != acc_t or o["lang"].startswith("X") or o["tx"].startswith("X") \
+                    or o["api_tx"].startswith(("crash", "semantic", "syntax-visitor")) or o.get("merge_mismatch") or o.get("empty_match"):
+                disagreements.append({"case": c["text"], "impl": o, "model": "API level and parser level classify the text differently, "
+                                      "or grammar_model_from_str failed otherwise than by a syntax error, or merged regex texts differ, "
+                                      "or a regex assumed non-empty matched the empty string"})
+            if acc_l != acc_t:
+                suspects.append(c)
+            if chk.cov["evaluations"] % 97 == 5:
+                chk.sample({"text": c["text"], "compiler": o["api_lang"], "textx_tx": o["api_tx"]})
+
+    observe(cases)
+    # model correspondence: Model/Peg.v on both dumped tables vs the real parsers; and the differing pairs by label
+    sel = [c for c in cases if not c["impl"].get("timeout") and len(c["text"]) <= (160 if chk.thorough else 100)][:n_model]
+    touts = run_texts([c["text"] for c in sel], tables=True) if sel else []
+    exprs = []
+    for c, o in zip(sel, touts):
+        per = {}
+        for oid, p, ln in o["table"]:
+            per.setdefault(oid, []).append((p, ln))
+        nor = max(per) + 1 if per else 0
+        tbl = "[" + ";".join("[" + ";".join("(%d,%d)" % x for x in per.get(i, [])) + "]" for i in range(nor)) + "]"
+        s = pegdump.coq_str(c["text"])
+        exprs.append("c24_case %s %s" % (tbl, s))
+    exprs = ["c24_diffs false", "c24_diffs true", "c24_ne"] + exprs
+    t0 = time.time()
+    vals, errs = core.coq_eval("C24", IMPORTS, exprs, shard=max(1, -(-len(exprs) // core.NPROC)), defs=DEFS)
+    all_diffs, unaccepted, ne_coq = vals[0], vals[1], vals[2]
+    vals = vals[3:]
+    if ne_coq != ";".join(core.canon_text(x) for x in NONEMPTY_PATTERNS):
+        disagreements.append({"case": "the non-empty regex list of the check differs from Model/PegEquiv.v textx_nonempty_patterns",
+                              "impl": NONEMPTY_PATTERNS, "model": ne_coq})
+    chk.cov["differing_pairs"] = all_diffs
+    chk.notes.append("coq model eval %d cases %.1fs" % (len(exprs), time.time() - t0))
+    if unaccepted is None or unaccepted != "":
+        disagreements.append({"case": "the two live parser models differ outside the accepted pairs (lang.py label ~ textx.tx label)",
+                              "model": unaccepted, "all_differing_pairs": all_diffs})
+        # targeted search: texts that exercise the named rules
+        extra = [{"text": t, "kind": "targeted"} for t in targeted_texts(unaccepted or "")]
+        chk.notes.append("targeted search for %s: %d texts" % (unaccepted, len(extra)))
+        observe(extra)
+    if errs:
+        disagreements.append({"case": "coq evaluation", "model": errs[:2]})
+    nm = 0
+    for c, o, v in zip(sel, touts, vals):
+        if v is None:
             continue
-        acc_l, acc_t = compiler_accepts(o), tx_accepts(o)
-        chk.count(c["text"], nontrivial=acc_l or acc_t or len(c["text"]) > 8)
-        chk.stat("%s compiler=%s textx.tx=%s" % (c["kind"].split(":")[0], "accept" if acc_l else "reject", "accept" if acc_t else "reject"))
-        # glue: the API-level classification must be the Arpeggio-level one
-        if (o["lang"] == "P") != acc_l or (o["tx"] == "P") != acc_t or o["lang"].startswith("X") or o["tx"].startswith("X") \
-                or o["api_tx"].startswith(("crash", "semantic", "syntax-visitor")) or o.get("merge_mismatch"):
-            disagreements.append({"case": c["text"], "impl": o, "model": "API level and parser level classify the text differently, "
-                                  "or grammar_model_from_str failed otherwise than by a syntax error, or merged regex texts differ"})
-        if acc_l != acc_t:
-            suspects.append(c)
-        if chk.cov["evaluations"] % 97 == 5:
-            chk.sample({"text": c["text"], "compiler": o["api_lang"], "textx_tx": o["api_tx"]})
+        nm += 1
+        m1, m2 = [x.strip() for x in v.split("|")]
+        i1, i2 = o["lang"], o["tx"]
+        ok = (m1.startswith("P:") and i1 == "P" or m1 == i1) and (m2.startswith("P:") and i2 == "P" or m2 == i2)
+        if not ok:
+            disagreements.append({"case": c["text"], "impl": [i1, i2], "model": [m1[:80], m2[:80]]})
+    chk.cov["disagreements_checked"] = nm
+    chk.stat("model-correspondence cases", nm)
     if len(timeouts) * 50 > len(cases):
         disagreements.append({"case": "more than 2% of the texts exceeded the per-text timer", "impl": timeouts[:3]})
     # attribution: in the class of a finding AND the repaired text is agreed upon
@@ -403,58 +511,26 @@ def run(chk):
                          "what": "the grammar compiler %s this text, textx.tx %s it" % (
                              "accepts" if compiler_accepts(o) else "rejects", "accepts" if tx_accepts(o) else "rejects"),
                          "tags": tags, "repaired": {"text": rt, "compiler": ro.get("api_lang"), "textx_tx": ro.get("api_tx")}})
+    failures.sort(key=lambda f: (bool(f["tags"]), len(f["case"]["text"])))     # report the shortest unattributed text first
     with open(chk.replay_path("unattributed.json"), "w") as f:
         json.dump([x for x in failures if not x["tags"]], f, indent=1)
-    # model correspondence: Model/Peg.v on both dumped tables vs the real parsers
-    sel = [c for c in cases if not c["impl"].get("timeout") and len(c["text"]) <= (160 if chk.thorough else 100)][:n_model]
-    touts = run_texts([c["text"] for c in sel], tables=True) if sel else []
-    exprs = []
-    for c, o in zip(sel, touts):
-        per = {}
-        for oid, p, ln in o["table"]:
-            per.setdefault(oid, []).append((p, ln))
-        nor = max(per) + 1 if per else 0
-        tbl = "[" + ";".join("[" + ";".join("(%d,%d)" % x for x in per.get(i, [])) + "]" for i in range(nor)) + "]"
-        s = pegdump.coq_str(c["text"])
-        exprs.append("c24_case %s %s" % (tbl, s))
-    exprs = ["c24_diffs false", "c24_diffs true"] + exprs
-    t0 = time.time()
-    vals, errs = core.coq_eval("C24", IMPORTS, exprs, shard=max(1, -(-len(exprs) // core.NPROC)), defs=DEFS)
-    all_diffs, unaccepted = vals[0], vals[1]
-    vals = vals[2:]
-    chk.cov["differing_pairs"] = all_diffs
-    if unaccepted is None or unaccepted != "":
-        disagreements.append({"case": "the two live parser models differ outside the accepted pairs (lang.py label ~ textx.tx label)",
-                              "model": unaccepted, "all_differing_pairs": all_diffs})
-    chk.notes.append("coq model eval %d cases %.1fs" % (len(exprs), time.time() - t0))
-    if errs:
-        disagreements.append({"case": "coq evaluation", "model": errs[:2]})
-    nm = 0
-    for c, o, v in zip(sel, touts, vals):
-        if v is None:
-            continue
-        nm += 1
-        m1, m2 = [x.strip() for x in v.split("|")]
-        i1, i2 = o["lang"], o["tx"]
-        ok = (m1.startswith("P:") and i1 == "P" or m1 == i1) and (m2.startswith("P:") and i2 == "P" or m2 == i2)
-        if not ok:
-            disagreements.append({"case": c["text"], "impl": [i1, i2], "model": [m1[:80], m2[:80]]})
-    chk.cov["disagreements_checked"] = nm
-    chk.stat("model-correspondence cases", nm)
     chk.cov["rule"] = ("grammar texts over the full textX syntax (imports, references with alias, rule parameters, choices, sequences, all "
                        "repeat operators with separator/eolterm modifiers, predicates, suppression, string and regex matches with escapes, "
-                       "assignments with all four operators, built-in and user rule references, object references with ':' and '|' match rule "
-                       "and RREL (flags, ^, dots, parent(), brackets, ~, fixed names, *, sequences), comments between any tokens, optional "
-                       "whitespace), the committed corpus, and two token/character mutations per text; evaluated by both real parsers "
-                       "(Arpeggio level and public API); non-trivial = accepted by one side or longer than 8 characters; "
-                       "distinct by text; a subset is also run through Model/Peg.v in Coq on both dumped parser tables")
+                       "assignments with all four operators, built-in, user and fully qualified rule references, object references with ':' "
+                       "and '|' match rule and RREL (flags, ^, dots, parent(), brackets, ~, fixed names, *, sequences), comments between any "
+                       "tokens, optional whitespace), the committed corpus, and two token/character mutations per text; evaluated by both "
+                       "real parsers (Arpeggio level and public API); non-trivial = accepted by one side or longer than 8 characters; "
+                       "distinct by text; a subset is also run through Model/Peg.v in Coq on both dumped parser tables; when the parser "
+                       "models differ outside the accepted pairs, all single-token edits of base grammars for the named rules are added")
     chk.assumptions += [
         "translator langpeg_tr.py/pegdump.py: the dumped tables are the live parser models (validated per run by running Model/Peg.v on "
         "them against the real parsers: acceptance and error position)",
         "regular expressions are oracles: same regex text (after reading `\\/` as `/`) and flags = same oracle; the merge is re-validated "
         "on every generated text with Python's re",
-        "the checker soundness theorem covers memoization=False (both parsers are built without memoization; checked in C24_diffs)",
-        "accepted NOTATION differences (separator notation, STRING/string_value, /regex/) are covered by the differential correspondence only",
+        "oracle hypothesis of the soundness theorem: `\\w+` never matches the empty string (checked with re on every text and position)",
+        "the checker soundness theorem covers memoization=False (both parsers are built without memoization; checked in C24_diffs); "
+        "the memoization=True corollary needs C19's class, which excludes grammars with a comment model such as the textX language",
+        "accepted NOTATION differences ((x sep)* x, STRING/string_value, rule_ref, /regex/) are covered by the differential correspondence only",
     ]
     with open(chk.replay_path("disagreements.json"), "w") as f:
         json.dump(disagreements, f, indent=1)
